@@ -306,7 +306,9 @@ func runMaxSatCase(o *Oracle, d json.RawMessage, oc *Outcome) {
 		maxsat.VerifSetNewHook(nil)
 		encodingMirror(o, oc, c.Constrs, enc)
 		an := sampleAnalyses(pb.Solver(), 2, 40, 4)
+		stopAppends := mirrorAppends(o, oc, pb.Solver(), "maxsat.Problem.Solve")
 		model, cost := pb.Solve()
+		stopAppends()
 		pb.Solver().VerifSetAnalyzeHook(nil)
 		analysisMirror(o, oc, *an, "maxsat.Problem.Solve")
 		entry := "maxsat.Problem.Solve"
